@@ -432,7 +432,9 @@ func checkPacing(w *world) (string, error) {
 		// A streak start is only used when it is unambiguous.
 		strictlyBetween := func(a, b time.Duration) bool {
 			for _, u := range writes {
-				if u.ID == id && u.At > a && u.At < b {
+				// a status-only write of another reconciler is not a change of
+				// the object for this reconciler: the backoff does not start over
+				if u.ID == id && u.At > a && u.At < b && u.Kind != stStatusOnly {
 					return true
 				}
 			}
@@ -471,13 +473,17 @@ func checkPacing(w *world) (string, error) {
 			return "wait-early", fmt.Errorf("WaitUntilReconciled(%d) returned revision %d without error", wo.Arg, wo.Rev)
 		}
 		lastUser := map[uint64]userWrite{}
+		lastAny := map[uint64]statedb.Revision{} // the object's revision: any write moves it, also a status-only one
 		for _, u := range writes {
 			if u.At <= wo.Ret && u.Kind != stStatusOnly {
 				lastUser[u.ID] = u
 			}
+			if u.At <= wo.Ret {
+				lastAny[u.ID] = u.Rev
+			}
 		}
 		for id, u := range lastUser {
-			if u.Rev > wo.Arg || !(u.Pending || u.Deleted) {
+			if u.Rev > wo.Arg || lastAny[id] > wo.Arg || !(u.Pending || u.Deleted) {
 				continue
 			}
 			attempted := false
@@ -582,7 +588,7 @@ func checkPacing(w *world) (string, error) {
 	return "", nil
 }
 
-var profC16 = profile{stepKinds: []int{stUpsert, stUpsert, stUpsert, stDelete}, injKinds: []int{0, 0, 0, 0, 1}, maxFaults: 8, waits: true, maxID: 3, failBias: true, afters: []int{0, 1, 5, 20, 50, 200, 200, 1000, 3000}}
+var profC16 = profile{stepKinds: []int{stUpsert, stUpsert, stUpsert, stDelete, stStatusOnly}, injKinds: []int{0, 0, 0, 0, 1}, maxFaults: 8, waits: true, maxID: 3, failBias: true, afters: []int{0, 1, 5, 20, 50, 200, 200, 1000, 3000}}
 
 const ruleC16 = "the C14 stack with longer per-object fail/succeed sequences (<= 8), several objects failing at once, object changes interleaved and a side goroutine calling WaitUntilReconciled(rev) for revisions of earlier user writes at generated instants; all attempts carry exact virtual timestamps. Checked over the call log: a retry never starts sooner than the minimum backoff after the failed attempt ended (no change in between); on stretches where nothing else is due the gap does not exceed maximum backoff + 2 rounds and does not shrink from one consecutive failure to the next; the first retry of a new failure streak (after a change or a success) uses the initial wait; WaitUntilReconciled returning nil implies every pending change up to its argument had been attempted by then; at the end the low-watermark is 0. During the run (at quiescent instants) the low-watermark is compared with the log in TestC16LowWatermark. Non-trivial = >= 2 consecutive failures of one object; distinct by case encoding."
 
